@@ -40,8 +40,8 @@ Proof. intros. unfold step. rewrite <- step_res_released. reflexivity. Qed.
 Lemma iters_rel_same : forall t t' l la,
   modc t' = modc t -> abs (root t') = abs (root t) -> iters_rel t l la -> iters_rel t' l la.
 Proof.
-  intros t t' l la Hm Ha H. unfold iters_rel in *. eapply Forall2_impl; [|exact H].
-  intros e ea (H1 & H2 & H3 & H4 & H5). split; auto. unfold iter_rel. rewrite Hm, Ha. auto.
+  intros t t' l la Hm Ha H. unfold iters_rel in *. induction H as [|e ea l la He H IH]; constructor; auto.
+  destruct He as (H1 & H2 & H3 & H4 & H5). split; auto. unfold iter_rel. rewrite Hm, Ha. auto.
 Qed.
 
 Lemma iters_rel_modified : forall t t' l la,
@@ -50,7 +50,7 @@ Proof.
   intros t t' l la Hm H. unfold iters_rel, invalidate in *. induction H as [|e ea l la He H IH]; cbn [map].
   - constructor.
   - constructor; auto. destruct He as (H1 & H2 & H3 & H4 & H5). cbn [fst snd]. split; auto.
-    unfold iter_rel. cbn [ai_valid ai_pos ai_inc]. repeat split; auto; try lia.
+    unfold iter_rel. cbn [ai_valid ai_pos ai_inc]. split; [auto|]. split; [lia|]. split.
     + symmetry. apply Nat.eqb_neq. lia.
     + discriminate.
 Qed.
@@ -99,4 +99,146 @@ Proof.
     assert (b1 = false) by congruence. subst b1.
     destruct (IH _ _ _ _ _ Ep) as (-> & ->).
     rewrite (set_nth_same _ _ Ec) in E. split; congruence.
+Qed.
+
+(* ------------------------------------------------------------------ *)
+(* frame of every per-operation proof *)
+Lemma refines_intro : forall s a o, R s a ->
+  (forall t m, st_tree s = Some t -> a_map a = Some m -> CInv t -> tree_map t = m ->
+     R (released s) a ->
+     exists s' x, step_res (released s) o = Ok (s', x) /\
+       R s' (fst (spec_step a o)) /\ x = snd (spec_step a o)) ->
+  refines s a o.
+Proof.
+  intros s a o HR H. unfold refines. rewrite step_released.
+  pose proof (R_released HR) as HR1. pose proof (r_tree HR) as Rt. unfold tree_rel in Rt.
+  destruct (st_tree s) as [t|] eqn:Et; destruct (a_map a) as [m|] eqn:Em; try contradiction.
+  - destruct Rt as (I & Em'). destruct (H t m eq_refl eq_refl I Em' HR1) as (s' & x & E & HR' & Ex).
+    rewrite E. cbn [fst snd]. subst x. auto.
+  - unfold step_res. unfold with_tree. cbn [st_tree released]. rewrite Et.
+    unfold spec_step. rewrite Em. cbn [fst snd]. split; auto.
+Qed.
+
+Lemma released_tree : forall s, st_tree (released s) = st_tree s.
+Proof. reflexivity. Qed.
+Lemma released_held : forall s, st_held (released s) = [].
+Proof. reflexivity. Qed.
+
+(* the balance of the reference counts when the caller holds nothing *)
+Lemma R_rc0 : forall s a, R (released s) a ->
+  forall o, rc_get (st_rc (released s)) o = cnt (orefs (st_tree s) ++ orefs (st_copy s)) o.
+Proof.
+  intros s a HR o. rewrite (r_rc HR). cbn [released st_tree st_copy st_held map].
+  rewrite !cnt_app, cnt_nil. lia.
+Qed.
+
+Ltac start_op :=
+  let t := fresh "t" in let m := fresh "m" in
+  intros; apply refines_intro; [assumption|];
+  intros t m Et Em I Etm HR1;
+  pose proof (R_rc0 HR1) as Hrc; rewrite Et in Hrc; cbn [orefs] in Hrc;
+  unfold step_res, with_tree; cbn [released st_tree st_copy st_iters st_rc st_held]; rewrite Et;
+  unfold spec_step; rewrite Em.
+
+(* ------------------------------------------------------------------ *)
+Lemma refines_OSet : forall s a k v, R s a -> refines s a (OSet k v).
+Proof.
+  start_op.
+  destruct (@tree_insert_ok t (release (st_rc s) (st_held s)) k v I)
+    as (t' & rc' & E & I' & Em' & Ecap & Emod & Hrc').
+  rewrite E. cbn [bind fst snd]. eexists. eexists. split; [reflexivity|]. split; [|reflexivity].
+  pose proof (r_iters HR1) as Ri. cbn [released st_tree st_iters] in Ri. rewrite Et in Ri.
+  constructor; cbn [set_tree modified st_tree st_copy st_iters st_rc st_held a_map a_copy a_iters released].
+  - split; auto. congruence.
+  - apply (r_copy HR1).
+  - apply iters_rel_modified with (t := t); auto. lia.
+  - intros o. rewrite Hrc', Hrc. cbn [orefs map]. rewrite !cnt_app, cnt_nil. lia.
+Qed.
+
+Lemma refines_OGet : forall s a z, R s a -> refines s a (OGet z).
+Proof.
+  start_op.
+  rewrite (tree_get_ok (release (st_rc s) (st_held s)) z I). cbn [bind]. rewrite Etm.
+  pose proof (r_iters HR1) as Ri. cbn [released st_tree st_iters] in Ri. rewrite Et in Ri.
+  destruct (m_get m z) as [v|]; cbn [fst snd].
+  - eexists. eexists. split; [reflexivity|]. split; [|reflexivity].
+    constructor; cbn [set_tree st_tree st_copy st_iters st_rc st_held].
+    + rewrite Em. split; auto.
+    + apply (r_copy HR1).
+    + exact Ri.
+    + intros o. rewrite rc_get_incref, Hrc. cbn [orefs map]. rewrite !cnt_app, cnt_cons, cnt_nil. lia.
+  - eexists. eexists. split; [reflexivity|]. split; [|reflexivity].
+    constructor; cbn [set_tree st_tree st_copy st_iters st_rc st_held].
+    + rewrite Em. split; auto.
+    + apply (r_copy HR1).
+    + exact Ri.
+    + intros o. rewrite Hrc. cbn [orefs map]. rewrite !cnt_app, cnt_nil. lia.
+Qed.
+
+Lemma tree_delitem_absent : forall t rc z, CInv t -> m_get (tree_map t) z = None ->
+  exists t', tree_delitem t rc z = Ok (t', rc, false) /\ CInv t' /\
+    abs (root t') = abs (root t) /\ modc t' = modc t /\ tree_map t' = tree_map t.
+Proof.
+  intros t rc z I Hn. destruct (ci_shape I) as (h & Sh).
+  pose proof (CInv_fuel I Sh) as Hf.
+  destruct (@p_del_spec (fuel_of t) rc (abs (root t)) z (tcap t) h None None Hf (ci_ord I) Sh)
+    as (pt & rc' & b & Ep & _ & _ & _ & Eb & _).
+  fold (tree_map t) in Eb. rewrite Hn in Eb. cbn in Eb. subst b.
+  destruct (p_del_absent _ _ _ _ Ep) as (-> & ->).
+  destruct (@tree_delitem_ok t rc z I) as (t' & rc2 & b & E & I' & Em' & Eb' & Ecap & Emod & _).
+  rewrite Hn in Eb'. cbn in Eb'. subst b.
+  pose proof (ci_cap I) as Hcap.
+  destruct (@C.SimTree.sim_tree_delitem t rc z (abs (root t)) rc false) as (t2 & E2 & Ea & _);
+    auto; try lia; [apply (ci_wf I)|apply (ord_nsorted (ci_ord I))|].
+  rewrite E in E2. inversion E2; subst. exists t2. repeat split; auto.
+  unfold tree_map. rewrite Ea. reflexivity.
+Qed.
+
+Lemma refines_ODel : forall s a z, R s a -> refines s a (ODel z).
+Proof.
+  start_op.
+  pose proof (r_iters HR1) as Ri. cbn [released st_tree st_iters] in Ri. rewrite Et in Ri.
+  destruct (m_get m z) as [v|] eqn:Eg.
+  - destruct (@tree_delitem_ok t (release (st_rc s) (st_held s)) z I)
+      as (t' & rc' & b & E & I' & Em' & Eb & Ecap & Emod & Hrc').
+    rewrite Etm, Eg in Eb. cbn in Eb. subst b.
+    rewrite E. cbn [bind fst snd]. eexists. eexists. split; [reflexivity|]. split; [|reflexivity].
+    constructor; cbn [set_tree modified st_tree st_copy st_iters st_rc st_held a_map a_copy a_iters released].
+    + split; auto. congruence.
+    + apply (r_copy HR1).
+    + apply iters_rel_modified with (t := t); auto. lia.
+    + intros o. rewrite Hrc', Hrc. cbn [orefs map]. rewrite !cnt_app, cnt_nil. lia.
+  - rewrite <- Etm in Eg.
+    destruct (@tree_delitem_absent t (release (st_rc s) (st_held s)) z I Eg) as (t' & E & I' & Ea & Emod & Em').
+    rewrite E. cbn [bind fst snd]. eexists. eexists. split; [reflexivity|]. split; [|reflexivity].
+    constructor; cbn [set_tree st_tree st_copy st_iters st_rc st_held].
+    + rewrite Em. split; auto. congruence.
+    + apply (r_copy HR1).
+    + apply iters_rel_same with (t := t); auto.
+    + intros o. rewrite Hrc. cbn [orefs map]. rewrite Ea. rewrite !cnt_app, cnt_nil. lia.
+Qed.
+
+Lemma refines_OIn : forall s a z, R s a -> refines s a (OIn z).
+Proof.
+  start_op.
+  destruct (@tree_contains_ok t (release (st_rc s) (st_held s)) z I) as (rc' & E & Hrc').
+  rewrite E. cbn [bind fst snd]. rewrite Etm.
+  pose proof (r_iters HR1) as Ri. cbn [released st_tree st_iters] in Ri. rewrite Et in Ri.
+  eexists. eexists. split; [reflexivity|]. split; [|reflexivity].
+  constructor; cbn [set_tree st_tree st_copy st_iters st_rc st_held].
+  - rewrite Em. split; auto.
+  - apply (r_copy HR1).
+  - exact Ri.
+  - intros o. rewrite Hrc', Hrc. cbn [orefs map]. rewrite !cnt_app, cnt_nil. lia.
+Qed.
+
+Lemma refines_OLen : forall s a, R s a -> refines s a OLen.
+Proof.
+  start_op. rewrite (tree_length_ok I), Etm.
+  eexists. eexists. split; [reflexivity|]. split; [|reflexivity]. exact HR1.
+Qed.
+
+Lemma refines_WCapacity : forall s a, R s a -> refines s a WCapacity.
+Proof.
+  start_op. eexists. eexists. split; [reflexivity|]. split; [|reflexivity]. exact HR1.
 Qed.
